@@ -411,7 +411,19 @@ fn matrix_inner(start: FileState, attempts: &[Ctor], nested: u8, shape: u8, rep:
             check_dirs(&dir.0, &parent)?;
         }
     }
+    let sidecars: Vec<PathBuf> = ["-journal", "-wal", "-shm"].iter().map(|sfx| parent.join(format!("{fname}{sfx}"))).collect();
     for (i, c) in attempts.iter().enumerate() {
+        // now and then stale (empty) sidecar files lie next to an existing database, readable by
+        // everybody - left by a crash, a restore from a backup, another tool: whatever is still
+        // there after a successful open must be owner-only like the database itself
+        if state != St::Missing && (i + nested as usize + shape as usize) % 2 == 0 {
+            for sc in &sidecars {
+                if !sc.exists() && std::fs::write(sc, b"").is_ok() {
+                    let _ = std::fs::set_permissions(sc, std::fs::Permissions::from_mode(0o644));
+                }
+            }
+            rep.classes.push("stale-sidecar-files-present".into());
+        }
         let before = std::fs::read(&path).ok();
         let key_a_before = key_of(&id_a);
         let key_b_before = key_of(&id_b);
@@ -497,6 +509,14 @@ fn matrix_inner(start: FileState, attempts: &[Ctor], nested: u8, shape: u8, rep:
                 let mode = std::fs::metadata(&path).map(|md| md.permissions().mode() & 0o777).unwrap_or(0);
                 if mode != 0o600 {
                     return Err(Failure::new("database-file-not-owner-only", format!("{what}: mode {mode:o}")));
+                }
+                for sc in &sidecars {
+                    if let Ok(md) = std::fs::metadata(sc) {
+                        let mode = md.permissions().mode() & 0o777;
+                        if mode != 0o600 {
+                            return Err(Failure::new("database-file-not-owner-only", format!("{what}: the sidecar file {:?} next to the opened database has mode {mode:o}", sc.file_name().unwrap_or_default())));
+                        }
+                    }
                 }
             }
         }
@@ -653,7 +673,7 @@ pub fn main(args: &Args) -> i32 {
     let spec = Spec {
         id: "C13",
         level: "exploration",
-        rule: "three generated case families. (1) histories (messages incl. 20-50 KB values, group-data changes, races and rollbacks) on SQLCipher storage opened with a caller key or through the (mock) keyring, under umasks 000 / 007 / 022 / 027 / 037 / 077: the canaries read back through the API (message texts, group names/descriptions, relay URL, member public keys, MLS and Nostr group ids, exporter secrets of every epoch, image keys, the database key; raw, hex in both cases, base64) are searched in every -journal/-wal/-shm/temp file at every storage tick and in every file of the directory at rest; then pragmas, file mode 0600, one-bit-wrong key / no key refused without touching the file, right key yields the same fingerprint. (2) constructor x file-state matrix: {keyring A, keyring B, key 1, key 2, unencrypted} in generated order on one path starting {missing, empty, plain, encrypted with key 1, encrypted through keyring A}, optionally below 1-2 directories the library must create (0700): Ok/Err per model, refused opens leave file and keyring untouched, keyring entries are reused, the right credentials show the same dump. (3) 2..16 threads opening one new path through the keyring at once: no panic, one key, instances share rows, normal open afterwards. Non-trivial = every history / concurrent case, matrix cases with >= 2 attempts on an existing file; distinct = distinct cases".into(),
+        rule: "three generated case families. (1) histories (messages incl. 20-50 KB values, group-data changes, races and rollbacks) on SQLCipher storage opened with a caller key or through the (mock) keyring, under umasks 000 / 007 / 022 / 027 / 037 / 077: the canaries read back through the API (message texts, group names/descriptions, relay URL, member public keys, MLS and Nostr group ids, exporter secrets of every epoch, image keys, the database key; raw, hex in both cases, base64) are searched in every -journal/-wal/-shm/temp file at every storage tick and in every file of the directory at rest; then pragmas, file mode 0600, one-bit-wrong key / no key refused without touching the file, right key yields the same fingerprint. (2) constructor x file-state matrix: {keyring A, keyring B, key 1, key 2, unencrypted} in generated order on one path starting {missing, empty, plain, encrypted with key 1, encrypted through keyring A}, optionally below 1-2 directories the library must create (0700), now and then with stale world-readable sidecar files next to the database (owner-only after a successful open): Ok/Err per model, refused opens leave file and keyring untouched, keyring entries are reused, the right credentials show the same dump. (3) 2..16 threads opening one new path through the keyring at once: no panic, one key, instances share rows, normal open afterwards. Non-trivial = every history / concurrent case, matrix cases with >= 2 attempts on an existing file; distinct = distinct cases".into(),
         assumptions: vec![
             "the platform keyring is the in-process mock store of keyring-core".into(),
             "rollback journals of single autocommitted statements exist only during the statement: they are seen where a storage tick falls inside the explicit transactions, and at rest".into(),
